@@ -24,7 +24,8 @@ RULE = ("split: n = 0..6 rows tagged with their index, 1-2 feature columns, labe
         "arbitrary prior use of the global RNG; oracle: index sets partition 0..n-1, rows and "
         "labels follow their indices, |first| = int(n*percentage), split == split_with_index, "
         "merge gives back the multiset of rows. convert/load/parse: every OPF binary dataset with "
-        "n = 1..3 samples over 9 feature vectors (float32-representable and not), arbitrary ids, "
+        "n = 1..3 samples over 9 feature vectors (float32-representable and not), arbitrary ids (small, "
+        "unordered, and above 2**24 up to 2**31-1), "
         "labels 1..K -> opf2txt/csv/json -> load_* -> parse_loader and Subgraph(from_file): "
         "float32 values exactly, labels shifted to 0.., ids preserved, three formats identical; "
         "parser: every label vector over {0..3} of length <= 4 accepted iff its value set is "
@@ -260,7 +261,7 @@ def conv_programs(shard, seed):
         feats = [[v * sc for v in vecs[i]] for i in seq]
         for lab in E.labelings(n, min_classes=1):
             labels = [l + 1 for l in lab]
-            for ids in (list(range(n)), [7, 3, 11, 5][:n]):
+            for ids in (list(range(n)), [7, 3, 11, 5][:n], [16777217, 903420581, 2147483647, 33554433][:n]):
                 yield {"kind": "conv", "ids": ids, "labels": labels, "features": feats}
 
 
